@@ -196,6 +196,22 @@ def t_cast_cast(p):
             pool = [-1, -100, 5, 127, -128, 0, 100] if t1 in signed else [0, 1, 200, 255, 127, 128]
             for t3 in (TP.INT64, TP.FLOAT):
                 out.append(S(f"int_{_NP_OF[t1]}_{_NP_OF[t2]}_{_NP_OF[t3]}", cls, mk(t1, t2, t3, rank=1, pool=pool)))
+    # integer -> float -> float: the middle cast rounds every value beyond the float's significand (2^24 / 2^53 / 2^11), so it
+    # is only removable when the float type holds every value of the integer type
+    sig = {TP.FLOAT: 24, TP.DOUBLE: 53, TP.FLOAT16: 11}
+    big = {TP.INT16: [2049, 4099, -2049, 32767, 5], TP.INT32: [16777217, -16777217, 33554435, 2147483647, 5],
+           TP.UINT32: [16777217, 4294967295, 33554435, 7], TP.INT64: [2**53 + 1, -(2**53 + 1), 16777217, 2**60 + 2**36 + 1, 3],
+           TP.UINT64: [2**53 + 1, 16777217, 2**63 + 2**11 + 1, 3]}
+    for t1, vals in big.items():
+        for t2 in (TP.FLOAT, TP.DOUBLE, TP.FLOAT16):
+            if t2 == TP.FLOAT16 and t1 != TP.INT16:
+                continue        # out of float16 range
+            exact = bits[t1] - (1 if t1 in signed else 0) <= sig[t2]
+            for t3 in (TP.DOUBLE, TP.FLOAT):
+                if t3 == t2:
+                    continue
+                out.append(S(f"intfloat_{_NP_OF[t1]}_{_NP_OF[t2]}_{_NP_OF[t3]}", f"int>float:{'exact' if exact else 'rounds'}",
+                             mk(t1, t2, t3, rank=1, pool=vals)))
     return out
 
 
